@@ -157,7 +157,7 @@ PURE_METHODS = {'copy', 'astype', 'sum', 'mean', 'std', 'var', 'min', 'max', 'an
                 'nonzero', 'cumulative_distribution', 'probability_density', 'percent_point', 'load', 'dump',
                 'encode', 'decode', 'title', 'isdigit', 'searchsorted', 'repeat', 'conj', 'trace', 'total_seconds',
                 'random', 'uniform', 'normal', 'randint', 'choice', '__subclasses__', 'mro', 'is_integer',
-                'select_dtypes', 'reindex', 'where', 'mask', 'nlargest', 'nsmallest', 'melt', 'merge', 'to_records',
+                'select_dtypes', 'get_loc', 'get_indexer', 'reindex', 'where', 'mask', 'nlargest', 'nsmallest', 'melt', 'merge', 'to_records',
                 'to_frame_copy', 'convert_dtypes', 'duplicated', 'drop_duplicates', 'equals', 'between', 'agg',
                 'kurt', 'skew', 'idxmax', 'idxmin', 'pct_change', 'shift', 'rolling_mean', 'to_json', 'to_string'}
 ALIAS_METHODS = {'to_numpy', 'reshape', 'ravel', 'squeeze', 'transpose', 'view', 'to_frame', 'items', 'values',
